@@ -733,4 +733,110 @@ theorem wna_Q_posSemidef (dim : Dim) {T q : ℝ} (hT : 0 ≤ T) (hq : 0 ≤ q) :
   rw [Matrix.reindex_apply]
   exact (blockDiagonal_posSemidef fun _ => Q2_posSemidef hT).submatrix _
 
+section sensorspec
+variable {α : Type} [Add α] [Mul α] [Zero α] [Inhabited α] {n m : Nat}
+
+/-- what the measurement numbered `(k, d)` of the specification is: `H x_k + S_R z_d`, `z_d` the `d`-th
+    noise vector (draws `p0 + d m … p0 + d m + m − 1` of the sensor's generator) -/
+def sensorMeasAt (H : Mat α m n) (SR : Mat α m m) (traj : Nat → Vec α n) (stream : Nat → α) (p0 : Nat) (kd : Nat × Nat) : Vec α m :=
+  sensorMeasurement H SR (traj kd.1) ((Rng.draw ⟨stream, p0 + kd.2 * m⟩ m 1).1.col ⟨0, Nat.one_pos⟩)
+
+/-- simulation relation between the sensor object and the counting specification -/
+def SensorRel (H : Mat α m n) (SR : Mat α m m) (traj : Nat → Vec α n) (stream : Nat → α) (p0 L : Nat)
+    (s : Sensor α n m) (a : SensorSpec) : Prop :=
+  s.sim.target = (List.range L).map traj ∧ s.sim.cursor = a.served ∧ a.served ≤ L ∧
+  s.rng.stream = stream ∧ s.rng.pos = p0 + a.draws * m ∧
+  s.meas = a.meas.map (sensorMeasAt H SR traj stream p0)
+
+theorem sensorRel_step (H : Mat α m n) (SR : Mat α m m) (traj : Nat → Vec α n) (stream : Nat → α) (p0 L : Nat)
+    (s : Sensor α n m) (a : SensorSpec) (h : SensorRel H SR traj stream p0 L s a) (op : SensorOp) :
+    SensorRel H SR traj stream p0 L (s.step H SR op).1 (a.step L op).1 ∧
+    (s.step H SR op).2 = SensorOut.mapVal (sensorMeasAt H SR traj stream p0) (a.step L op).2 := by
+  obtain ⟨ht, hc, hle, hs, hp, hm⟩ := h
+  have hlen : s.sim.target.length = L := by rw [ht]; simp
+  cases op with
+  | freeze =>
+    by_cases hlt : a.served < L
+    · have h1 : s.sim.cursor < s.sim.target.length := by rw [hlen, hc]; exact hlt
+      have hget : s.sim.target[s.sim.cursor]'h1 = traj a.served := by
+        have : s.sim.target[s.sim.cursor]? = some (traj a.served) := by
+          rw [ht, hc, List.getElem?_map, List.getElem?_range hlt]; rfl
+        exact Option.some.inj ((List.getElem?_eq_getElem h1).symm.trans this)
+      have hrng : s.rng = ⟨stream, p0 + a.draws * m⟩ := by
+        cases hr : s.rng with
+        | mk st ps => simp only [hr] at hs hp; subst hs; subst hp; rfl
+      simp only [Sensor.step, sensorFreeze_lt H SR s h1, SensorSpec.step, if_pos hlt, SensorOut.mapVal]
+      refine ⟨⟨ht, by simp [hc], hlt, ?_, ?_, ?_⟩, trivial⟩
+      · simp [Rng.draw, hs]
+      · simp only [Rng.draw, hp]; ring
+      · simp only [Option.map_some, sensorMeasAt, hget, hrng]
+    · have h1 : s.sim.target.length ≤ s.sim.cursor := by rw [hlen, hc]; omega
+      simp only [Sensor.step, sensorFreeze_ge H SR s h1, SensorSpec.step, if_neg hlt, SensorOut.mapVal]
+      exact ⟨⟨ht, hc, hle, hs, hp, hm⟩, trivial⟩
+  | measure =>
+    exact ⟨⟨ht, hc, hle, hs, hp, hm⟩, by simp [Sensor.step, SensorSpec.step, SensorOut.mapVal, sensorMeasure, hm]⟩
+  | reset =>
+    exact ⟨⟨ht, rfl, Nat.zero_le _, hs, hp, hm⟩, rfl⟩
+  | buffer =>
+    by_cases hlt : a.served < L
+    · have h1 : s.sim.cursor < s.sim.target.length := by rw [hlen, hc]; exact hlt
+      simp only [Sensor.step, step_buffer_lt s.sim h1, SensorSpec.step, if_pos hlt, SensorOut.mapVal]
+      exact ⟨⟨ht, by simp [hc], hlt, hs, hp, hm⟩, trivial⟩
+    · have h1 : s.sim.target.length ≤ s.sim.cursor := by rw [hlen, hc]; omega
+      simp only [Sensor.step, step_buffer_ge s.sim h1, SensorSpec.step, if_neg hlt, SensorOut.mapVal]
+      exact ⟨⟨ht, hc, hle, hs, hp, hm⟩, trivial⟩
+
+theorem sensorRel_run (H : Mat α m n) (SR : Mat α m m) (traj : Nat → Vec α n) (stream : Nat → α) (p0 L : Nat)
+    (ops : List SensorOp) :
+    ∀ (s : Sensor α n m) (a : SensorSpec), SensorRel H SR traj stream p0 L s a →
+      SensorRel H SR traj stream p0 L (Sensor.run H SR s ops).1 (SensorSpec.run L a ops).1 ∧
+      (Sensor.run H SR s ops).2 = (SensorSpec.run L a ops).2.map (SensorOut.mapVal (sensorMeasAt H SR traj stream p0)) := by
+  induction ops with
+  | nil => intro s a h; exact ⟨h, rfl⟩
+  | cons op ops ih =>
+    intro s a h
+    obtain ⟨h1, h2⟩ := sensorRel_step H SR traj stream p0 L s a h op
+    obtain ⟨h3, h4⟩ := ih _ _ h1
+    exact ⟨by simpa [Sensor.run, SensorSpec.run] using h3, by simp only [Sensor.run, SensorSpec.run, List.map_cons, h2, h4]⟩
+
+/-- **Refinement of the sensor.**  For every state model, trajectory length, measured-component matrix `H`,
+    noise factor `S_R`, generator stream and every finite sequence of `freeze` / `measure` / reset /
+    direct `bufferData` calls, the complete list of answers of a `SimulatedLinearSensor` is the list of
+    answers of the counting specification, a stored measurement numbered `(k, d)` being
+    `H x_k + S_R z_d` with `x_k` the `k`-th state of `x_{k+1} = motion_k(x_k)` and `z_d` the `d`-th
+    block of `m` draws; the generator has then advanced by `m` draws per successful `freeze`. -/
+theorem sensor_refines_spec (H : Mat α m n) (SR : Mat α m m) (step : Nat → Vec α n → Vec α n) (x0 : Vec α n)
+    (L : Nat) (stream : Nat → α) (p0 : Nat) (ops : List SensorOp) :
+    (Sensor.run H SR { sim := simCtor step x0 L, meas := none, rng := ⟨stream, p0⟩ } ops).2
+      = (SensorSpec.run L { served := 0, draws := 0, meas := none } ops).2.map
+          (SensorOut.mapVal (sensorMeasAt H SR (simTraj step x0) stream p0)) ∧
+    (Sensor.run H SR { sim := simCtor step x0 L, meas := none, rng := ⟨stream, p0⟩ } ops).1.rng.pos
+      = p0 + (SensorSpec.run L { served := 0, draws := 0, meas := none } ops).1.draws * m ∧
+    (Sensor.run H SR { sim := simCtor step x0 L, meas := none, rng := ⟨stream, p0⟩ } ops).1.sim.cursor
+      = (SensorSpec.run L { served := 0, draws := 0, meas := none } ops).1.served := by
+  have h0 : SensorRel H SR (simTraj step x0) stream p0 L
+      { sim := simCtor step x0 L, meas := none, rng := ⟨stream, p0⟩ } { served := 0, draws := 0, meas := none } :=
+    ⟨rfl, rfl, Nat.zero_le _, rfl, by simp, rfl⟩
+  obtain ⟨⟨_, hc, _, _, hp, _⟩, ho⟩ := sensorRel_run H SR (simTraj step x0) stream p0 L ops _ _ h0
+  exact ⟨ho, hp, hc⟩
+
+end sensorspec
+
+/-- over ℝ: the measurement numbered `(k, d)` is `H x_k + S_R z_d` entry by entry -/
+theorem sensorMeasAt_eq {n m : Nat} (H : Mat ℝ m n) (SR : Mat ℝ m m) (traj : Nat → Vec ℝ n) (stream : Nat → ℝ) (p0 : Nat) (kd : Nat × Nat) :
+    toV (sensorMeasAt H SR traj stream p0 kd)
+      = toM H *ᵥ toV (traj kd.1) + toM SR *ᵥ (fun i : Fin m => stream (p0 + kd.2 * m + i.val)) := by
+  rw [sensorMeasAt, sensorMeasurement_eq]
+  congr 2
+  ext i
+  simp [Rng.draw, fillCM, Mat.col]
+
+
+/-- non-vacuity: two states, `f m f m f m r f m` — the third freeze is refused and keeps measurement (1, 1);
+    after the reset state 0 is measured again with the third noise vector -/
+example : (SensorSpec.run 2 { served := 0, draws := 0, meas := none }
+    [.freeze, .measure, .freeze, .measure, .freeze, .measure, .reset, .freeze, .measure]).2
+    = [.flag true, .meas true (some (0, 0)), .flag true, .meas true (some (1, 1)), .flag false, .meas true (some (1, 1)),
+       .flag true, .flag true, .meas true (some (0, 2))] := by rfl
+
 end BFL.Models
